@@ -2,6 +2,8 @@ import MosnVerif.Lemmas.TlsSelect
 import MosnVerif.Lemmas.TlsUpdate
 import MosnVerif.Model.TlsTrust
 import MosnVerif.Model.TlsConnect
+import MosnVerif.Lemmas.TlsSds
+import MosnVerif.Lemmas.TlsAccept
 /-!
 # C13 — TLS policy is enforced as configured (property theorems only)
 
@@ -530,4 +532,165 @@ example : reached (connectTimeoutDowngrade ⟨true, true, false⟩ .timeout true
 example : accepted true false true true true false 0x47 = .plain ∧ accepted true false true true true false 0x16 = .tls ∧
     accepted true false true true true true 0 = .closed ∧ accepted false false true true false false 0x16 = .plain := by decide
 end NoDowngrade
+/-! ## sds-backed contexts under configuration updates (pkg/mtls/secret_manager.go; `Gen/TlsSds.lean`) -/
+section SdsUpdate
+open MosnVerif.Model.TlsSds MosnVerif.Lemmas.TlsSds MosnVerif.Gen.TlsSds
+
+/-- **sds_context_follows_latest_config**: for EVERY initial configuration, EVERY secret the pem provider may already
+hold, EVERY sequence of configuration updates (listener / cluster updates through NewProvider → updateConfig, whatever
+the value `g` of a guard around the rebuild), secret pushes and empty pushes, the TLS context in force is built from the
+LATEST configuration and the LATEST secret (none before the first secret), and the stored configuration / secret are
+the latest ones. `updateConfig`'s store and rebuild, the rebuild of a push and `update()`'s guard are regenerated. -/
+theorem sds_context_follows_latest_config {κ σ : Type} (cfg0 : κ) (s0 : Option σ) (g : Bool) (ops : List (SOp κ σ)) :
+    (run cfg0 s0 g ops).ctx = specCtx cfg0 s0 ops ∧
+    (run cfg0 s0 g ops).config = latestCfg cfg0 ops ∧ (run cfg0 s0 g ops).secret = latestSecret s0 ops := by
+  have hc := foldl_coherent ops _ (create_coherent cfg0 s0 g)
+  have hf := foldl_fields ops (create cfg0 s0 g)
+  rw [(create_fields cfg0 s0 g).1, (create_fields cfg0 s0 g).2] at hf
+  refine ⟨?_, hf.1, hf.2⟩
+  unfold Coherent at hc
+  unfold run specCtx
+  rw [hc, hf.1, hf.2]
+
+/-- **sds_context_current_at_every_point**: the same after every prefix of the history (a handshake made between any
+two operations meets the context of the latest configuration). -/
+theorem sds_context_current_at_every_point {κ σ : Type} (cfg0 : κ) (s0 : Option σ) (g : Bool) (ops : List (SOp κ σ)) (n : Nat) :
+    (run cfg0 s0 g (ops.take n)).ctx = specCtx cfg0 s0 (ops.take n) :=
+  (sds_context_follows_latest_config cfg0 s0 g (ops.take n)).1
+
+/-- a policy-only update takes effect at once: after `update cfg` the context (if a secret is there) carries `cfg` -/
+theorem sds_update_takes_effect {κ σ : Type} (cfg0 : κ) (s0 : Option σ) (g g' : Bool) (ops : List (SOp κ σ)) (cfg : κ) (s : σ)
+    (hs : latestSecret s0 ops = some s) :
+    (run cfg0 s0 g (ops ++ [.update cfg g'])).ctx = some (cfg, s) := by
+  rw [(sds_context_follows_latest_config cfg0 s0 g _).1]
+  have h1 : ∀ (c : κ) (l : List (SOp κ σ)), latestCfg c (l ++ [.update cfg g']) = cfg := by
+    intro c l; induction l generalizing c with
+    | nil => simp [latestCfg]
+    | cons o r ih => cases o <;> simp [latestCfg, ih]
+  have h2 : ∀ (x : Option σ) (l : List (SOp κ σ)), latestSecret x (l ++ [.update cfg g']) = latestSecret x l := by
+    intro x l; induction l generalizing x with
+    | nil => simp [latestSecret]
+    | cons o r ih => cases o <;> simp [latestSecret, ih]
+  simp [specCtx, h1, h2, hs]
+
+/-- **sdsu_spec_holds_on_model**: what a handshake observes on the model's context is what the statement's tables give
+for the same context — listener side for every policy over the run's server names, every SNI of the run and every peer
+class; cluster side for every policy, server certificate class and hook verdict. -/
+theorem sdsu_listener_spec_holds_on_model (pol : Option LPol) (sni : Name) (peer : Peer)
+    (hp : ∀ q, pol = some q → q.sname ∈ [[], snA, snB]) (hs : sni ∈ [sdsCN, snA, snB, snNone, defaultCN]) :
+    listenerPick pol sni peer = specListenerPick pol sni peer := by
+  cases pol with
+  | none =>
+    simp only [List.mem_cons, List.not_mem_nil, or_false] at hs
+    rcases hs with h | h | h | h | h <;> subst h <;> cases peer <;> decide
+  | some q =>
+    obtain ⟨v, r, sn⟩ := q
+    have := hp _ rfl
+    simp only [List.mem_cons, List.not_mem_nil, or_false] at this hs
+    rcases this with h | h | h <;> subst h <;> rcases hs with h | h | h | h | h <;> subst h <;>
+      cases v <;> cases r <;> cases peer <;> decide
+
+theorem sdsu_cluster_spec_holds_on_model (ctx : Option (CPol × Nat)) (cert : ServerCert) (hookOK : Bool) :
+    clusterObs ctx cert hookOK = specClusterObs ctx cert hookOK := by
+  cases ctx with
+  | none => rfl
+  | some c =>
+    obtain ⟨⟨i, s, h⟩, k⟩ := c
+    have e : clientAccepts h i s cert hookOK = specClientAccepts h i s cert hookOK := by
+      cases i <;> cases s <;> cases h <;> cases cert <;> cases hookOK <;> decide
+    simp only [clusterObs, specClusterObs, Option.map, e]
+
+-- instances: a listener that turns on require_client_cert + verify_client after its secret arrived
+example : (run (⟨false, false, []⟩ : LPol) none true [.push 1, .update ⟨true, true, []⟩ true]).ctx = some (⟨true, true, []⟩, 1) := by decide
+example : listenerObs (some (⟨true, true, []⟩, 1)) sdsCN .none = some (some 1, false) ∧
+    listenerObs (some (⟨false, false, []⟩, 1)) sdsCN .none = some (some 1, true) ∧
+    listenerObs (some (⟨false, false, snA⟩, 1)) snA .none = some (some 1, true) ∧
+    listenerObs (some (⟨false, false, snB⟩, 1)) snA .none = some (none, true) ∧
+    listenerObs none sdsCN .stolenKey = some (none, true) := by decide
+example : clusterObs (some (⟨false, true, false⟩, 2)) .otherCA false = some (2, false) ∧
+    clusterObs (some (⟨true, true, false⟩, 2)) .otherCA false = some (2, true) := by decide
+/-- NEGATION WITNESS: `updateConfig` that rebuilds only when the tls.Config template changed (`g` = it changed): a
+policy-only update (g = false) leaves the old context in force until the next push — a listener that just turned on
+require_client_cert / verify_client still accepts a client without certificate. -/
+def stepTemplateOnly {κ σ : Type} (p : Prov κ σ) : SOp κ σ → Prov κ σ
+  | .update cfg g => let p' := { p with config := cfg }; if g then rebuild p' else p'
+  | op => step p op
+example :
+    let ops : List (SOp LPol Nat) := [.push 1, .update ⟨true, true, []⟩ false]
+    let p := ops.foldl stepTemplateOnly (create ⟨false, false, []⟩ none true)
+    p.ctx = some (⟨false, false, []⟩, 1) ∧ p.ctx ≠ specCtx ⟨false, false, []⟩ none ops ∧
+    listenerObs p.ctx sdsCN .none = some (some 1, true) ∧
+    specListenerObs (specCtx ⟨false, false, []⟩ none ops) sdsCN .none = some (some 1, false) ∧
+    ((ops ++ [SOp.pushEmpty]).foldl stepTemplateOnly (create (⟨false, false, []⟩ : LPol) none true)).ctx = some ((⟨true, true, []⟩ : LPol), 1) := by decide
+end SdsUpdate
+/-! ## the accept path with use_original_dst (pkg/server/handler.go, originaldst listener filter; `Gen/TlsAccept.lean`) -/
+section AcceptPath
+open MosnVerif.Model.TlsAccept MosnVerif.Lemmas.TlsAccept MosnVerif.Gen.TlsAccept MosnVerif.Gen.TlsConnect
+
+/-- **every_accepted_connection_passes_its_listeners_tls**: for EVERY table of listeners (which of the accepting listener
+A, the listener B matching the original destination and the fallback-ip listener C have a TLS manager, which managers
+fail), every outcome of the original-destination lookup (read or not, B exists or not, C exists or not), with and
+without use_original_dst, transferred or not: the path from the raw accept ends in `newConnection` of the listener that
+must own the connection (B, else C, else A) and on the way the connection went through `tlsMng.Conn` of exactly that
+listener, exactly once, and of no other (not at all when the owner has no manager or the old process already wrapped
+it) — or the owner's manager failed and the connection was closed. The guard around the TLS block, the filter's three
+answers, the end of the filter chain and the three branches of UseOriginalDst are regenerated. -/
+theorem every_accepted_connection_passes_its_listeners_tls (e : Env) (useOrig : Bool) (htcp : e.isTCP = true) :
+    let tr := accept e 3 .self useOrig
+    let o := specOwner useOrig e.lookupOk e.matched e.localMatched
+    (tr.getLast? = some (.serve o) ∧ wraps tr = (if e.mng o && !e.transferred then [o] else [])) ∨
+    (tr = [.closed o] ∧ e.mng o = true ∧ e.transferred = false ∧ e.mngErr o = true) := by
+  have h := pathOk_all e useOrig htcp
+  unfold pathOk at h
+  rw [Bool.or_eq_true] at h
+  rcases h with h | h
+  · rw [Bool.and_eq_true, beq_iff_eq, beq_iff_eq] at h
+    exact Or.inl h
+  · simp only [Bool.and_eq_true, beq_iff_eq, Bool.not_eq_true'] at h
+    exact Or.inr ⟨h.1.1.1, h.1.1.2, h.1.2, h.2⟩
+
+/-- **tls_listener_with_original_dst_never_raw**: a listener with a TLS manager never serves a freshly accepted TCP
+connection that did not go through its `tlsMng.Conn` — whichever way the connection reached it. -/
+theorem tls_listener_with_original_dst_never_raw (e : Env) (useOrig : Bool) (htcp : e.isTCP = true) (hnt : e.transferred = false)
+    (t : Target) (hs : (accept e 3 .self useOrig).getLast? = some (.serve t)) (hm : e.mng t = true) :
+    wraps (accept e 3 .self useOrig) = [t] := by
+  have h := every_accepted_connection_passes_its_listeners_tls e useOrig htcp
+  simp only at h
+  rcases h with ⟨h1, h2⟩ | ⟨h1, _⟩
+  · rw [h1] at hs
+    have : specOwner useOrig e.lookupOk e.matched e.localMatched = t := by simpa using hs
+    rw [this] at h2
+    simpa [hm, hnt] using h2
+  · rw [h1] at hs; simp at hs
+
+-- instances: the three outcomes, the failed lookup, a listener without use_original_dst
+def exAll : Env := ⟨fun _ => true, fun _ => false, false, true, true, true, true⟩
+example : accept exAll 3 .self true = [.wrap .matched, .serve .matched] := by decide
+example : accept { exAll with matched := false } 3 .self true = [.wrap .localFallback, .serve .localFallback] := by decide
+example : accept { exAll with matched := false, localMatched := false } 3 .self true = [.wrap .self, .serve .self] := by decide
+example : accept { exAll with lookupOk := false } 3 .self true = [.wrap .self, .serve .self] := by decide
+example : accept exAll 3 .self false = [.wrap .self, .serve .self] := by decide
+example : accept { exAll with mngErr := fun _ => true, matched := false } 3 .self true = [.closed .localFallback] := by decide
+example : exAll.isTCP = true := rfl
+/-- NEGATION WITNESS 1: the 'nothing matches' branch of UseOriginalDst serving the connection directly
+(`arc.activeListener.newConnection(ctx, arc.rawc)`, "avoid accepting twice"): a listener with TLS contexts serves the
+raw socket. -/
+def acceptDirectSelf (e : Env) (useOrig : Bool) : List Ev :=
+  let pre := if acceptWrapGuard useOrig && e.mng .self && !e.transferred then [Ev.wrap .self] else []
+  if acceptAddsOrigDst useOrig then
+    match origDstFilter true e.lookupOk e.isTCP with
+    | .redirect addrSet =>
+      if addrSet && e.matched then pre ++ accept e 2 .matched false
+      else if addrSet && e.localMatched then pre ++ accept e 2 .localFallback false
+      else pre ++ [.serve .self]
+    | _ => pre ++ [.serve .self]
+  else pre ++ [.serve .self]
+example : acceptDirectSelf { exAll with matched := false, localMatched := false } true = [.serve .self] ∧
+    wraps (acceptDirectSelf { exAll with matched := false, localMatched := false } true) = [] ∧
+    acceptDirectSelf exAll true = [.wrap .matched, .serve .matched] := by decide
+/-- NEGATION WITNESS 2 (the repaired defect): the filter answering a failed lookup with Continue -/
+def origDstFilterOld (useOrig lookupOk : Bool) : FilterOut :=
+  if !useOrig then .continue else if !lookupOk then .continue else .redirect true
+example : origDstFilterOld true false = .continue ∧ chainEnd = .serve .self ∧ acceptWrapGuard true = false := by decide
+end AcceptPath
 end MosnVerif.Props.C13
